@@ -4,6 +4,7 @@ use crate::impl_::stream::{Stream, WeakStream};
 use parking_lot::Mutex;
 use std::collections::HashMap;
 use std::hash::Hash;
+use std::sync::atomic::Ordering;
 use std::sync::{Arc, RwLock};
 
 use super::name::NodeName;
@@ -148,6 +149,13 @@ impl<A, K> Router<A, K> {
                 vec![in_stream.box_clone()],
             );
             node.add_update_dependencies(vec![in_stream.to_dep()]);
+            // built by a handler after the input was visited in the current transaction: the input
+            // will not push its dependents again, have the propagation visit the router all the same
+            if in_stream.node().data.visited.load(Ordering::SeqCst) {
+                sodium_ctx.with_data(|data: &mut SodiumCtxData| {
+                    data.changed_nodes.push(node.box_clone());
+                });
+            }
         }
         Router {
             sodium_ctx: sodium_ctx.clone(),
